@@ -155,7 +155,8 @@ def wire_wopts(kind, wopts, kw):
     if kind == "legacy" and not lang:
         lang = None
     pos = [pos_code(wopts)] if kind == "single" else []
-    return [bool(rel), bool(fit), dims, ("s:" + lang) if lang is not None else None, pos]
+    inline = bool(wopts.get("write_inline_positioning")) and kind in ("dfxp", "single")
+    return [bool(rel), bool(fit), dims, ("s:" + lang) if lang is not None else None, pos, inline]
 
 
 def text_node_tree(text):
@@ -366,7 +367,9 @@ def compare(history, obs, steps, pristine, prop="C10"):
                     dis("number of deepcopy calls on (copies of) the input", detail="copy-count", model=m["copies"], impl=o["n_copies"])
                 mfp = sorted(set(FP_NAMES[x] for x in m["fp"]))
                 rfp = sorted(set(tuple(x) for x in o["copy_fp"]))
-                if o["n_copies"] and mfp != rfp:
+                # a write that raised for a reason outside the model (a caption time no writer can print) stops half
+                # way through its assignments: footprints are compared when both exits agree
+                if o["n_copies"] and mfp != rfp and (m["err"] == real_err or not extreme_times(tree_w)):
                     dis("slots assigned on the writer's own copy (footprint)", detail="own-copy-footprint", model=mfp, impl=rfp)
             elif o["copy_fp"]:
                 dis("slots assigned on the writer's own copy (footprint)", detail="own-copy-footprint", model=[], impl=o["copy_fp"])
